@@ -43,10 +43,25 @@ def oracle(line: str, obs: Obs):
     auth_ids = {a["id"] for a in cfg["apps"] if a["auth"]}
     acct_ids = {a["id"] for a in cfg["apps"] if a["acct"]}
     state, direction, succeeded, ce_seen = {}, {}, set(), {}
+    first_cer: dict = {}         # accepted connection -> Origin-Host of the first CER read on it (whose connection it is)
+
+    def owner_of(c, d):
+        # the peer whose timers apply: the one that was dialled, or the configured peer whose CER the connection carried
+        if d["dir"] == "S":
+            return d.get("name") if d.get("name") != "-" else None
+        return first_cer.get(c)
     now = T0
     simple_clock = True
     for ev, lines in obs.blocks:
         t = ev.split(" ")
+        if t[0] == "rx":
+            for dmsg in t[2:]:
+                try:
+                    m0 = parse_msg(dmsg)
+                except Exception:  # noqa
+                    continue
+                if m0["cmd"] == 257 and m0["R"] and f"c{t[1]}" not in first_cer and state.get(f"c{t[1]}") == "CONNECTED":
+                    first_cer[f"c{t[1]}"] = m0["keys"].get("oh", "").lower() if m0["keys"].get("oh", "").lower() in peers else None
         if t[0] == "adv":
             now += int(t[1])
         elif t[0] in ("req", "stop"):
@@ -139,7 +154,7 @@ def oracle(line: str, obs: Obs):
                     state[c + "@t"] = established
                 # … and not before: a connection waiting for its CER/CEA is only given up by the timer once the timeout has passed
                 if simple_clock and t[0] == "adv" and state.get(c) == "CONNECTED" and d["state"] == "CLOSED" and c not in succeeded:
-                    pname = d.get("name") if d.get("name") != "-" else None
+                    pname = owner_of(c, d)
                     p = peers.get(pname)
                     key = "cer" if d["dir"] == "R" else "cea"
                     tmo = (p or {}).get(key) or cfg[key]
@@ -152,7 +167,7 @@ def oracle(line: str, obs: Obs):
                     succeeded.add(c)
                 # timeout: not succeeded and older than the configured timeout at a timer check => closed
                 if simple_clock and t[0] == "adv" and c not in succeeded and d["state"] == "CONNECTED":
-                    pname = d.get("name") if d.get("name") != "-" else None
+                    pname = owner_of(c, d)
                     p = peers.get(pname)
                     key = "cer" if d["dir"] == "R" else "cea"
                     tmo = (p or {}).get(key) or cfg[key]
@@ -191,6 +206,12 @@ def scenarios(rng: random.Random, tier: str) -> list[str]:
     noapp_out = (f"NODE host={nodegen.HOST};realm={nodegen.REALM};peer:peer1.x,{nodegen.REALM},1,0,30,1,0,-,-,-,-")
     for a in ("4", "99"):
         out.append(noapp_out + " | start ok | rx 0 " + nodegen.cea(2001, "peer1.x", 2001, 9, auth=a) + " | tick | rx 0 " + nodegen.dwr(85, 86) + " | tick")
+    # a known peer whose CER is answered 5010 (nothing in common): the connection stays open until *its* CER timer runs out
+    for p_cer, n_cer in ((2, 6), (6, 2), (3, 3)):
+        cfgp = (f"NODE host={nodegen.HOST};realm={nodegen.REALM};cea=9;cer={n_cer};idle=60;"
+                f"peer:peer1.x,{nodegen.REALM},0,0,30,1,0,-,{p_cer},-,-;app:4,1,0,b,0,0,-")
+        for k in sorted({min(p_cer, n_cer), min(p_cer, n_cer) + 1, max(p_cer, n_cer), max(p_cer, n_cer) + 1}):
+            out.append(cfgp + " | start | acc | rx 0 " + nodegen.cer("peer1.x", "99", 91, 92) + f" | adv {k} | tick")
     # timeout grid: node-level CER/CEA timeouts other than the defaults, peers without overrides
     for cea_t, cer_t in ((1, 2), (2, 1), (9, 7), (3, 3)):
         cfg = (f"NODE host={nodegen.HOST};realm={nodegen.REALM};cea={cea_t};cer={cer_t};idle=60;"
